@@ -24,7 +24,7 @@ Definition reach (s : sstate) : list pcop :=
   match s with
   | HaveLocalOffer => [OCreateOffer 16; OSetLocal (ds Offer 16)]
   | HaveRemoteOffer => [OSetRemote (ds Offer 16)]
-  | HaveLocalPranswer => [OSetRemote (ds Offer 16); OCreateAnswer 32; OSetLocal (ds Pranswer 32)]
+  | HaveLocalPranswer => [OSetRemote (ds Offer 16); OCreateAnswer 32 true; OSetLocal (ds Pranswer 32)]
   | HaveRemotePranswer => [OCreateOffer 16; OSetLocal (ds Offer 16); OSetRemote (ds Pranswer 32)]
   | _ => []
   end.
@@ -114,7 +114,7 @@ Print Assumptions c02_edge_only_refuted.
 (* ---- premises of c02_partial / c02_partial_last_stable are satisfiable ---- *)
 Example c02_repaired_rollback_after_exchange :
   let ops := [OCreateOffer 16; OSetLocal (ds Offer 16); OSetRemote (ds Answer 32)] in
-  let mid := [OSetRemote (ds Offer 48); OCreateAnswer 64; OSetLocal (ds Pranswer 64)] in
+  let mid := [OSetRemote (ds Offer 48); OCreateAnswer 64 true; OSetLocal (ds Pranswer 64)] in
   exists n',
     never_stable repaired (run_r repaired ops) mid /\
     st (run_from_r repaired (run_r repaired ops) mid) = HaveLocalPranswer /\
